@@ -27,7 +27,12 @@ def scenarios(ctx):
                                                                dict(topics=["t"], assignors=["range"], start=1.0, commit_after_poll=True)], **tail), B))
     out.append(("manual-commit-only", gc.two_members(errs=e, members=[dict(topics=["t"], assignors=["range"], commit_after_poll=True, auto_commit=False),
                                                                       dict(topics=["t"], assignors=["range"], start=1.0, commit_after_poll=True, auto_commit=False)], **tail), Q))
-    out.append(("batch-polls", gc.two_members(errs=e, poll_max_records=None, feed=[0.2, 8], **tail), Q))
+    # a live member is cut off long enough to be evicted, the other member owns and commits its partition meanwhile, then the
+    # partition heals and the member rejoins and is handed the same partitions as before
+    out.append(("evicted-and-back", gc.two_members(errs=e, feed=[0.3, 14], explore_until=4.6, isolate=[0, 0.8, 3.6], kill=False, coord_move=False,
+                                                   members=[dict(topics=["t"], assignors=["range"]), dict(topics=["t"], assignors=["range"], start=0.2)],
+                                                   **tail), [{"r": 1}] if quick else [{"r": 1}, {"f": 1}, {"p": 1}]))
+    out.append(("batch-polls",gc.two_members(errs=e, poll_max_records=None, feed=[0.2, 8], **tail), Q))
     if not quick:
         out.append(("three", gc.two_members(errs=e, topics={"t": 3}, members=[dict(topics=["t"], assignors=["roundrobin"]),
                                                                               dict(topics=["t"], assignors=["roundrobin"], start=0.6),
